@@ -288,7 +288,7 @@ def check_subruns(res, iv, spans, S, E):
     except Exception as e:
         res.violation(f"subruns:ctor:{type(e).__name__}", str(e), case)
         return
-    assert c.is_superrun and c.promised_continuity
+    assert c.is_superrun
     for t in range(S, E + 1):
         if any(a < t < b for a, b in iv):
             continue
@@ -308,7 +308,10 @@ def check_subruns(res, iv, spans, S, E):
                 res.violation("subruns:concat-inverse", f"t={t}: concatenated subruns {_norm(cc.subruns)} != {runs}", case)
         except Exception as e:
             res.violation(f"subruns:concat-raised:{type(e).__name__}", f"t={t}: {e}", case)
-        # superrun attribute
+        # superrun attribute (which runs a concatenated chunk consists of): by construction it tiles the chunk
+        # from edge to edge, so only such annotations are meaningful
+        if spans[0][0] != S or spans[-1][1] != E:
+            continue
         try:
             l2, r2 = c2.split(t)
         except Exception as e:
@@ -340,8 +343,7 @@ def job_subruns(res, n, G, shard, nshards):
         pts = range(S, E + 1)
         for nr in (1, 2, 3):
             for cutpts in itertools.combinations(pts, 2 * nr):
-                if cutpts[0] != S or cutpts[-1] != E:
-                    continue
+                # subruns may or may not reach the chunk edges (time gaps between / around subruns)
                 spans = [(cutpts[2 * i], cutpts[2 * i + 1]) for i in range(nr)]
                 if not all(any(s <= a and b <= e for s, e in spans) for a, b in iv):
                     continue
